@@ -25,12 +25,18 @@ the same coding); the Rust side uses the real types and its `{:?}` output is dec
   boxarr2     Box<Product<[u32; 2]>>        a * 64 + b
   revarr2     Reverse<Product<[u32; 2]>>    a * 64 + b        (order reversed)
 
+  lexicographic tuple lattices (std tuples with Dual / Reverse / Option components at every position, nested, and under
+  Dual / Option / OrdLattice): table LEX of gen/c03_lex.py (type ids 20.., radix 1024), Coq side coq/LatEngine/LatVocabLex.v.
+
 Symbols: name -> (coq id, arity, rust template with $0 $1 .. = argument VALUE expressions (already dereferenced
 and parenthesised), python function on codes).  Ids < 200 are the plain vocabulary of gen/dl.py / Engine/Vocab.v.
 """
 import re
 
+from . import c03_lex
 from . import dl
+
+LEX = c03_lex.LEX
 
 PAIRK = 64
 SETN = 16
@@ -116,6 +122,8 @@ def popc(m):
 
 
 def join(ty, a, b):
+    if ty in LEX:
+        return c03_lex.join(ty, a, b)
     if ty in ("max", "opt", "bool", "pair"):
         return max(a, b)
     if ty == "dual":
@@ -151,6 +159,8 @@ def leq(ty, a, b):
 
 def rust_value(ty, c):
     """Rust expression of the lattice value with code c"""
+    if ty in LEX:
+        return c03_lex.rust_value(ty, c)
     if ty == "max":
         return "%du32" % c
     if ty == "dual":
@@ -195,6 +205,8 @@ def _mask(s):
 def decode(ty, s):
     """`{:?}` output of a lattice value -> code"""
     s = s.strip()
+    if ty in LEX:
+        return c03_lex.decode(ty, s)
     if ty in ("max", "dual"):
         return int(s)
     if ty == "opt":
@@ -454,6 +466,9 @@ for _ty, _t in COMPOSITE.items():
     for _ in _t[2]:
         _dom = [d + [v] for d in _dom for v in _vals]
     DOMAINS[_ty] = ([0] if _t[3] else []) + [mk(_ty, d) for d in _dom]
+SMALLP = [0, 2, 3, 9]       # plain arguments of the LEX vocabulary in the tables below (their signatures are wider)
+import sys as _sys
+c03_lex.install(_sys.modules[__name__])
 
 
 def order(ty, a, b):
@@ -465,13 +480,30 @@ def order(ty, a, b):
     return leq(ty, a, b)
 
 
-def _tuples(tys):
+def _tuples(tys, pdom=None):
     if not tys:
         yield ()
         return
-    for a in DOMAINS[tys[0]]:
-        for rest in _tuples(tys[1:]):
+    for a in (pdom if pdom is not None and tys[0] == "p" else DOMAINS[tys[0]]):
+        for rest in _tuples(tys[1:], pdom):
             yield (a,) + rest
+
+
+def _pdom(sig, res=None):
+    """the plain-argument domain used in the tables for a symbol of this signature"""
+    return SMALLP if any(t in LEX for t in list(sig) + [res]) else None
+
+
+def _mono_pairs(sig, pdom):
+    """(xs, ys): argument tuples with xs <= ys position by position (plain arguments are ordered by equality)"""
+    pos = [i for i, t in enumerate(sig) if t != "p"]
+    for xs in _tuples(sig, pdom):
+        for sub in _tuples([sig[i] for i in pos]):
+            if all(order(sig[i], xs[i], v) for i, v in zip(pos, sub)):
+                ys = list(xs)
+                for i, v in zip(pos, sub):
+                    ys[i] = v
+                yield xs, tuple(ys)
 
 
 def selfcheck():
@@ -489,16 +521,14 @@ def selfcheck():
                         bad.append("lub %s %s %s %s" % (ty, a, b, c))
     for fn, (res, sig) in FUN_SIG.items():
         f = FUNS[fn][3]
-        for xs in _tuples(sig):
-            for ys in _tuples(sig):
-                if all(order(t, x, y) for t, x, y in zip(sig, xs, ys)) and not order(res, f(*xs), f(*ys)):
-                    bad.append("function %s not monotone at %s <= %s" % (fn, xs, ys))
+        for xs, ys in _mono_pairs(sig, _pdom(sig, res)):
+            if not order(res, f(*xs), f(*ys)):
+                bad.append("function %s not monotone at %s <= %s" % (fn, xs, ys))
     for pn, sig in PRED_SIG.items():
         f = PREDS[pn][3]
-        for xs in _tuples(sig):
-            for ys in _tuples(sig):
-                if all(order(t, x, y) for t, x, y in zip(sig, xs, ys)) and f(*xs) and not f(*ys):
-                    bad.append("predicate %s not upward closed at %s <= %s" % (pn, xs, ys))
+        for xs, ys in _mono_pairs(sig, _pdom(sig)):
+            if f(*xs) and not f(*ys):
+                bad.append("predicate %s not upward closed at %s <= %s" % (pn, xs, ys))
     for x in DOMAINS["dual"]:
         for y in DOMAINS["dual"]:
             if order("dual", x, y) and not order("dv", PARTIALS["undual"][5](x), PARTIALS["undual"][5](y)):
@@ -507,21 +537,21 @@ def selfcheck():
 
 
 def coq_table():
-    """(expressions, expected python values): the Coq vocabulary (LatVocab.v + LatVocabArr.v) must compute the same codes"""
+    """(expressions, expected python values): the Coq vocabulary (LatVocab.v + LatVocabArr.v + LatVocabLex.v) must compute the same codes"""
     exprs, want = [], []
     for ty, (tid, _) in LTYPES.items():
         for a in DOMAINS[ty]:
             for b in DOMAINS[ty]:
-                exprs.append("lat2_jm %d%%nat (%d) (%d)" % (tid, a, b))
+                exprs.append("lat3_jm %d%%nat (%d) (%d)" % (tid, a, b))
                 j = join(ty, a, b)
                 want.append((j, j != a))
     for fn, (res, sig) in FUN_SIG.items():
-        for xs in _tuples(sig):
-            exprs.append("lv2_fun %d%%nat [%s]" % (FUNS[fn][0], "; ".join("(%d)" % x for x in xs)))
+        for xs in _tuples(sig, _pdom(sig, res)):
+            exprs.append("lv3_fun %d%%nat [%s]" % (FUNS[fn][0], "; ".join("(%d)" % x for x in xs)))
             want.append(FUNS[fn][3](*xs))
     for pn, sig in PRED_SIG.items():
-        for xs in _tuples(sig):
-            exprs.append("lv2_pred %d%%nat [%s]" % (PREDS[pn][0], "; ".join("(%d)" % x for x in xs)))
+        for xs in _tuples(sig, _pdom(sig)):
+            exprs.append("lv3_pred %d%%nat [%s]" % (PREDS[pn][0], "; ".join("(%d)" % x for x in xs)))
             want.append(bool(PREDS[pn][3](*xs)))
     for x in DOMAINS["set"]:
         exprs.append("lv_gen 2%%nat [(%d)]" % x)
